@@ -65,7 +65,16 @@ static Plan gen_grid(Rng rng, uint64_t run) {
 }
 
 // ------------------------------------------------------------------------- plan generation per property
+static Plan make_plan_raw(const PropDef &pd, uint64_t seed, uint64_t run);
 static Plan make_plan(const PropDef &pd, uint64_t seed, uint64_t run) {
+    Plan p = make_plan_raw(pd, seed, run);
+    // Where results are compared ACROSS back ends or build configurations (C06's hosts, C12's digests) the allocation
+    // fault must mean the same thing everywhere: "the k-th request fails" for k >= 2 depends on how many requests a back
+    // end happens to make (a private detail), so only "the first request fails" / "memory is exhausted" are used there.
+    if (pd.mode == M_XHOST || std::string(pd.id) == "DIG") for (auto &o : p.ops) if (o.failalloc >= 2) o.failalloc = 1; else if (o.failalloc < -1) o.failalloc = -1;
+    return p;
+}
+static Plan make_plan_raw(const PropDef &pd, uint64_t seed, uint64_t run) {
     Rng rng(seed, run, "plan");
     std::string id = pd.id;
     if (id == "C03") return gen_inverse(rng);
